@@ -181,8 +181,7 @@ def validate_traces(lines, workdir, name, shards=None, timeout=1800):
             groups[-1].append(ln)
     total = sum(len(l) for g in groups for l in g)
     if shards is None:
-        shards = max(1, min(12, total // 400000 + 1, len(groups)))
-        shards = max(shards, min(12, len(groups) // 150 + 1))
+        shards = max(1, min(12, len(groups) // 6))
     # balance by bytes
     bins = [[] for _ in range(shards)]
     sizes = [0] * shards
